@@ -92,6 +92,29 @@ pub fn run_c14(cfg: &RunCfg, trace: bool) -> RunOut {
                     calls += 1;
                     let pos = cur.position().min(cur.get_ref().len() as u64) as usize;
                     let remaining: Vec<u8> = cur.get_ref()[pos..].to_vec();
+                    if let Some(k) = read_exact_len(*n) {
+                        // read_exact: Ok with exactly the next k bytes iff k bytes remain; after a
+                        // failure the executor has moved the handle to the end
+                        match &got {
+                            Res::Ok(Out::Read(b)) => {
+                                if remaining.len() < k || b[..] != remaining[..k] {
+                                    fail!(i, op, "read_exact-wrong-bytes", format!("read_exact({}) returned Ok with {} bytes, {} remain at position {}", k, b.len(), remaining.len(), cur.position()));
+                                }
+                                let np = cur.position() + k as u64;
+                                cur.set_position(np);
+                                if k == 0 && cur.position() > cur.get_ref().len() as u64 {
+                                    cx.out.count("probe.c14.read_exact_empty_past_end");
+                                }
+                            }
+                            Res::Err(_) if remaining.len() < k => {
+                                let l = cur.get_ref().len() as u64;
+                                cur.set_position(l);
+                                cx.out.count("probe.c14.read_exact_unexpected_eof");
+                            }
+                            other => fail!(i, op, "read_exact-failed", format!("read_exact({}) with {} bytes remaining: {}", k, remaining.len(), short(other))),
+                        }
+                        continue;
+                    }
                     match &got {
                         Res::Ok(Out::Read(b)) => {
                             if b.len() > *n {
